@@ -34,6 +34,10 @@ NOT_PARSED = {
     ("ConnectResponse", "crd"): "an error response (status != E_NO_ERROR) carries no HPAI / CRD; the parser ignores the rest",
 }
 
+# entries of NOT_PARSED whose reason is "the writer does not carry the field on this path" — the exemption lapses when
+# the field's bits are in the serialised octets
+ABSENT_FROM_WIRE = {("ConnectRequestInformation", "knx_layer"), ("ConnectRequestInformation", "individual_address"), ("ConnectResponseData", "individual_address")}
+
 LIST_BODIES = {"DescriptionResponse", "SearchResponse", "SearchResponseExtended", "SearchRequestExtended"}
 
 
@@ -150,8 +154,12 @@ def same(ev: SerEval, run: Run, fq: str, a: Any, b: Any, problems: list[str]) ->
         for k in sorted(set(a.fields) | set(b.fields)):
             nested_parsed = isinstance(b.fields.get(k), Obj) and bool(run.__dict__.get("assigned", {}).get(id(b.fields[k])))
             if assigned is not None and k not in assigned and (a.cls, k) in NOT_PARSED and not nested_parsed:
-                run.notes.append(f"unparsed {a.cls}.{k}: {NOT_PARSED[(a.cls, k)]}")
-                continue
+                # the exemption is for a field the writer did not put on the wire on this path; what was serialised
+                # must come back
+                on_wire = (a.cls, k) in ABSENT_FROM_WIRE and "wire" in run.__dict__ and a.fields.get(k) is not None and f"{k}" in repr(ev.norm_bytes(run.__dict__["wire"], run))
+                if not on_wire:
+                    run.notes.append(f"unparsed {a.cls}.{k}: {NOT_PARSED[(a.cls, k)]}")
+                    continue
             same(ev, run, f"{fq}.{k}", a.fields.get(k), b.fields.get(k), problems)
         return
     if isinstance(a, Bytes):
@@ -198,6 +206,7 @@ def roundtrip(chk: Check, repo: Repo, ev: SerEval, ci: ClassInfo, kind: str) -> 
             except AbstractRaise as r:
                 return ("refused", r.exc, None, None, None)
             out = ev.as_bytes(out, run)
+            run.__dict__["wire"] = out
             ln = ev.call_function(cl, [], {}, run, self_val=o, ctx=ci) if cl is not None else None
             fresh = ev.construct(ci, [], {}, run)
             run.__dict__["assigned"] = {id(fresh): set()}
